@@ -38,7 +38,9 @@ RULE = ("random dataclass type trees (depth<=4; list/dict/Optional/nested datacl
 ASSUMPTIONS = ["laws stated for total documents; partial documents may re-encode absent keys with the field's declared default",
                "runs on /repo/src/pyopenapi_gen/core, which C12 shows is byte-identical to what clients receive"]
 
-LEAVES = ["str", "int", "float", "bool", "bytes", "datetime", "date", "time", "UUID"]
+LEAVES = ["str", "int", "float", "bool", "bytes", "datetime", "date", "time", "UUID", "Colour", "Level"]   # + two Enum leaves
+ENUMS = {"Colour": ("str", [("RED", "red"), ("DARK_BLUE", "dark-blue"), ("EMPTY", ""), ("NULLISH", "null")]),
+         "Level": ("int", [("LOW", 0), ("HIGH", 10), ("NEG", -1)])}
 KEYWORDISH = ["class", "from", "id", "type", "import", "return", "def", "pass"]
 
 
@@ -105,7 +107,10 @@ def render_type(t: dict) -> str:
 
 def render_module(classes: list[dict]) -> str:
     out = ["from dataclasses import dataclass, field", "from datetime import date, datetime, time",
-           "from typing import Any, Dict, List, Optional", "from uuid import UUID", ""]
+           "from enum import Enum", "from typing import Any, Dict, List, Optional", "from uuid import UUID", ""]
+    # enum leaves are declared the way generated clients declare them: a str / int mixin
+    for en, (base, members) in ENUMS.items():
+        out += [f"class {en}({base}, Enum):"] + [f"    {m} = {v!r}" for m, v in members] + ["", ""]
     # nested classes are created after their parents in `classes`; emit in reverse so references resolve at import
     for c in reversed(classes):
         out += ["@dataclass", f"class {c['name']}:"]
@@ -160,6 +165,9 @@ def gen_value(rng, t: dict, cmap: dict[str, dict], depth: int = 0) -> tuple[Any,
         if ty == "time":
             v = dt.time(rng.randint(0, 23), rng.randint(0, 59), rng.randint(0, 59))
             return {"time": v.isoformat()}, v.isoformat(), True
+        if ty in ENUMS:
+            v = rng.choice(ENUMS[ty][1])[1]
+            return {"enum": [ty, v]}, v, True
         if ty == "UUID":
             import uuid as _uuid
             v = _uuid.UUID(int=rng.getrandbits(128))
@@ -204,6 +212,8 @@ def build(desc: Any, mod) -> Any:
     if "uuid" in desc:
         import uuid as _uuid
         return _uuid.UUID(desc["uuid"])
+    if "enum" in desc:
+        return getattr(mod, desc["enum"][0])(desc["enum"][1])
     if "list" in desc:
         return [build(x, mod) for x in desc["list"]]
     if "dict" in desc:
@@ -345,6 +355,8 @@ def inject(rng, t: dict, js: Any, cmap: dict, path_names: list[str]) -> tuple[An
             cands.append((f, "abc"))
         elif inner["k"] == "leaf" and inner["t"] in ("datetime", "date"):
             cands.append((f, "not-a-date"))
+        elif inner["k"] == "leaf" and inner["t"] in ENUMS:
+            cands.append((f, "no-such-member" if ENUMS[inner["t"]][0] == "str" else 12345))
         elif inner["k"] == "list":
             cands.append((f, 5))
         elif inner["k"] == "dc":
